@@ -82,3 +82,9 @@ impl VxFromStr for debversion::Version {
     #[verifier::external_body]
     fn vx_from_str(s: &str) -> (r: Result<debversion::Version, VxVersionParseError>) { unimplemented!() }
 }
+
+/// TRUSTED: `Display for debversion::Version` writes *some* function of the value
+pub uninterp spec fn version_text(v: debversion::Version) -> Seq<char>;
+impl VxDisplay for debversion::Version {
+    open spec fn display_spec(&self) -> Seq<char> { version_text(*self) }
+}
